@@ -656,7 +656,7 @@ func checkC14GitDiff(c ContractCase, r *rec.Rec) error {
 	return nil
 }
 
-var c14OptSets = []string{"list", "list", "set", "mset", "setkeys:id", "setkeys:id", "setkeys:id", "merge", "set+merge", "mset+merge", "prec:0.1", "prec:0.001", "set+mset"}
+var c14OptSets = []string{"list", "list", "set", "mset", "setkeys:id", "setkeys:id", "setkeys:id", "merge", "set+merge", "mset+merge", "prec:0.1", "prec:0.001", "set+mset", "setkeys:a b"}
 
 func genC14(t *rapid.T) ContractCase {
 	c := ContractCase{Bin: gen.Pick(t, "bin", []string{"jd-v2", "jd-top", "jd-top-v1"})}
